@@ -17,7 +17,7 @@ PLACEMENTS = ["protected", "split", "unprotected"]
 KEY_GIVEN = ["key", "keyset", "callable-key", "callable-keyset"]
 SIGN_REPS = ["jwk", "pem", "der", "encpem", "generated"]
 VERIFY_REPS = ["same", "pubjwk", "pubpem"]
-PAYLOAD_NAMES = ["empty", "one", "n31", "n32", "n33", "binary", "utf8", "dots", "urlsafe", "ascii", "json", "k64"]
+PAYLOAD_NAMES = ["empty", "one", "n31", "n32", "n33", "binary", "utf8", "dots", "urlsafe", "ascii", "json", "k64", "urlsafe_nl", "nl_urlsafe", "urlsafe_cr", "word_unicode", "word_digits"]
 
 
 def payload_of(name, rng) -> bytes:
@@ -26,6 +26,8 @@ def payload_of(name, rng) -> bytes:
         "binary": bytes([0, 255, 128, 10, 13]) + rng.randbytes(40), "utf8": "héllo wörld 世界 \U0001F600".encode(), "dots": b"a.b.c..d.",
         "urlsafe": b"abc-DEF_123~xyz", "ascii": b"hello, world! not url safe", "json": b'{"iss":"joe","exp":1300819380,"n":[1,2,{"a":null}]}',
         "k64": rng.randbytes(65536),
+        # URL-safe characters with a line feed / carriage return at an edge; text made of non-ASCII "word" characters only (\\w in a str pattern matches them)
+        "urlsafe_nl": b"token_123~\n", "nl_urlsafe": b"\ntoken_123", "urlsafe_cr": b"token-abc\r", "word_unicode": "Grüße日本語".encode("utf-8"), "word_digits": "١٢٣".encode("utf-8"),
     }[name]
 
 
